@@ -3365,6 +3365,14 @@ func (a *Association) createForwardTSN() *chunkForwardTSN {
 			break
 		}
 
+		if c.unordered {
+			// RFC 3758 Sec 3.2: the Stream/SSN pairs describe skipped ordered
+			// messages only. An unordered chunk carries no SSN of its own, and
+			// listing its stream would make the peer skip an ordered message
+			// that was never abandoned.
+			continue
+		}
+
 		ssn, ok := streamMap[c.streamIdentifier]
 		if !ok {
 			streamMap[c.streamIdentifier] = c.streamSequenceNumber
